@@ -98,3 +98,35 @@ Proof.
   split; [vm_compute; reflexivity|]. split; [vm_compute; reflexivity|]. split; [|vm_compute; reflexivity].
   constructor; [vm_compute; reflexivity|]. constructor; [vm_compute; reflexivity|]. constructor; [vm_compute; reflexivity|constructor].
 Qed.
+
+(* ---- a whole file: the rows written one after the other are the rows read, in order, to the end of the file ---- *)
+From Zeno Require Import CorrRow.
+
+Definition encode_rows (rows:list (list Z * list (list Z))) : list Z := flat_map (fun r => encode_row (fst r) (snd r)) rows.
+
+Lemma encode_row_cons key cols : exists b rest, encode_row key cols = b :: rest.
+Proof. unfold encode_row. cbn [enc_be app]. eexists. eexists. reflexivity. Qed.
+
+Lemma decode_all_rows : forall rows fuel, (length rows < fuel)%nat -> Forall (fun r => fits (fst r) (snd r)) rows ->
+  decode_all fuel (encode_rows rows) = Some rows.
+Proof.
+  induction rows as [|[key cols] rows IH]; intros fuel Hf Hfit.
+  - destruct fuel as [|f]; [inversion Hf|]. reflexivity.
+  - destruct fuel as [|f]; [inversion Hf|]. inversion Hfit; subst. cbn [fst snd] in *.
+    cbn [decode_all encode_rows flat_map fst snd].
+    destruct (encode_row_cons key cols) as [b [rest E]].
+    assert (encode_row key cols ++ flat_map (fun r => encode_row (fst r) (snd r)) rows = b :: rest ++ flat_map (fun r => encode_row (fst r) (snd r)) rows) as E2 by (rewrite E; reflexivity).
+    rewrite E2. rewrite <- E2. rewrite row_roundtrip by assumption.
+    fold (encode_rows rows). rewrite IH; [reflexivity| simpl in Hf; lia | assumption].
+Qed.
+
+Lemma encode_rows_length rows : (length rows <= length (encode_rows rows))%nat.
+Proof.
+  induction rows as [|[key cols] rows IH]; [simpl; lia|]. cbn [encode_rows flat_map fst snd]. rewrite app_length.
+  destruct (encode_row_cons key cols) as [b [rest E]]. rewrite E. fold (encode_rows rows). simpl. lia.
+Qed.
+
+(* with the fuel the correspondence stage uses *)
+Theorem file_roundtrip rows : Forall (fun r => fits (fst r) (snd r)) rows ->
+  decode_all (S (length (encode_rows rows))) (encode_rows rows) = Some rows.
+Proof. intros H. apply decode_all_rows; [pose proof (encode_rows_length rows); lia|exact H]. Qed.
